@@ -1,12 +1,13 @@
 #!/bin/sh
-# Build the overlay venv used by every check (offline, idempotent).
+# Build the overlay venv used by every check (offline, idempotent), next to this script.
 set -e
-V=/verif/.venv
-if [ ! -x "$V/bin/python" ] || ! "$V/bin/python" -c "import z3, crosshair" 2>/dev/null; then
+HERE="$(cd "$(dirname "$0")" && pwd)"
+V="$HERE/.venv"
+if [ ! -x "$V/bin/python" ] || ! "$V/bin/python" -c "import z3, jsonschema" 2>/dev/null; then
   rm -rf "$V"
   /venv/bin/python -m venv "$V"
   SP=$("$V/bin/python" -c "import site; print(site.getsitepackages()[0])")
   printf '/venv/lib/python3.12/site-packages\n' > "$SP/verif_overlay.pth"
-  PIP_NO_INDEX=1 "$V/bin/pip" install -q --no-index --find-links /opt/veriftools/wheels crosshair-tool z3-solver jsonschema >/dev/null
+  PIP_NO_INDEX=1 "$V/bin/pip" install -q --no-index --find-links /opt/veriftools/wheels z3-solver jsonschema >/dev/null
 fi
-"$V/bin/python" -c "import z3, crosshair, numpy, pulp, yaml; print('verif venv ok', z3.get_version_string())"
+"$V/bin/python" -c "import z3, numpy, pulp, yaml; print('verif venv ok', z3.get_version_string())"
